@@ -62,6 +62,18 @@ func init() {
 			"(REST or Go client: DELETE message, PATCH seen, DELETE mailbox) is issued meanwhile and is never waited for before the release; " +
 			"afterwards the mailbox must be what some sequential order of the two gives (acknowledged effect present, new message present or, " +
 			"for a purge ordered second, gone), read back through the store and through the API. " +
+			"Long names (added after seeded change C14-12): about 1 history in 4 has one mailbox whose local part is exactly 63, 64, 65, " +
+			"100, 127 or 128 characters (local, full naming) or whose domain is 63, 64, 65, 100, 200 or 253 characters (domain naming), " +
+			"qualified by RCPT alone (Policy.NewRecipient names that mailbox; the read-side lookup is what is under test) and first " +
+			"delivered to through a real SMTP session; every operation addresses it by the bare name and, 1 lookup in 3 under local " +
+			"naming, by name@domain. " +
+			"Odd content (added after seeded change C14-11): 1 delivery in 5 (SMTP, StoreManager.Deliver or Store.AddMessage) carries " +
+			"well-formed From/To/Subject but a MIME structure a parser rejects or must guess about (multipart without / with empty / " +
+			"with valueless boundary, boundary never seen or never closed, unknown or broken transfer encodings, garbage Content-Type / " +
+			"Content-Disposition, header line without a name or without a colon, 8-bit header bytes, no body, NUL, 5000-character line); " +
+			"list, source, PATCH seen, DELETE, purge and the client equivalents are judged for it as for any stored message, only the " +
+			"routes rendering the parsed message (REST show, web UI message/html, client GetMessage) may answer 500 (counted) - never " +
+			"404, and with the store's metadata when they answer 200. " +
 			"A history is non-trivial when >=1 API call was judged against >=1 stored message; distinct by (setup, naming, set of " +
 			"(interface, operation, id class, name class, outcome)).",
 		Assumptions: []string{
@@ -73,6 +85,8 @@ func init() {
 			"PATCH bodies are always {\"seen\":true}",
 			"an in-flight delivery is a Store.AddMessage call whose content reader is blocked by the harness after half of the bytes; a store is free to serialise the API call behind it (the file store does) or to serve it at once (the mem store does): which of the two happened is counted, never judged, and the 10 ms the harness lets the call run before it releases the delivery only shape the schedule",
 			"in-flight steps address only ids that exist or do not exist in every order of the two operations (no id borrowed from another mailbox, no 'latest'), and never a mailbox whose name contains '/'",
+			"a message with odd content (see Rule) may make the routes that render the PARSED message answer 500: MIME decoding is not this property; which answer was given is counted (odd_parsed_read_500, odd_judged:*), every other route and every mutation is judged as for a well-formed message",
+			"a long name is lower case, has no '+' and no '/', dots only single and inside, so that it is its own canonical name under the naming function; '+ext' spellings are only used where the local part stays within the 128 characters RCPT accepts",
 			"every failure of a request whose mailbox name contains '/' is filed under the single key " + SlashKey + " (known defect D13)",
 		},
 		MinObs: func(tier string) map[string]int64 {
@@ -88,6 +102,37 @@ func init() {
 			}
 			for _, op := range inflightOps {
 				m["inflight:"+op] = 50
+			}
+			// long names (healthy quick run: about 450 histories, 2400 calls, 780 by a bare name longer than 64)
+			m["long_name_histories"] = 200
+			m["long_name_smtp_deliveries"] = 200
+			m["long_name_calls"] = 1000
+			m["long_name_calls:bare"] = 400
+			m["long_name_calls:address"] = 400
+			m["long_name_calls_over64_bare"] = 250
+			for _, n := range namings {
+				lens := longLocalLens
+				if n == "domain" {
+					lens = longDomainLens
+				}
+				for _, l := range lens {
+					m[fmt.Sprintf("long_name_len:%s/%d", n, l)] = 5
+				}
+			}
+			for _, op := range allOps {
+				m["long_name_op:"+op] = 15
+			}
+			// odd content (healthy quick run: about 3000 deliveries, each shape >= 40, 580 parsed reads answered 500)
+			m["odd_deliveries"] = 1500
+			m["deliveries_store"] = 200
+			m["odd_listed"] = 500
+			m["odd_parsed_read_500"] = 150
+			for _, sh := range oddShapes {
+				m["odd_shape:"+sh.name] = 15
+			}
+			for _, op := range []string{"rest-seen", "rest-delete", "rest-source", "rest-show", "client-seen", "client-delete", "client-source", "client-show",
+				"client-list:MessageHeader.Delete", "client-list:MessageHeader.GetSource", "ui-source", "ui-message"} {
+				m["odd_judged:"+op] = 20
 			}
 			for _, b := range backends {
 				for _, p := range basePaths {
@@ -160,7 +205,10 @@ type hist struct {
 	failed     bool // the current step recorded a violation
 	abort      bool
 	clientBase string
-	curName    string // spelling of the mailbox name used by the current step
+	curName    string            // spelling of the mailbox name used by the current step
+	long       map[string]bool   // the long names of the history (gen.go)
+	longSMTP   map[string]bool   // long names that received mail through an SMTP session
+	odd        map[string]string // mailbox\x00id -> odd content shape of the stored message
 }
 
 func runHistory(c *fw.Ctx, idx int, r *fw.Rand) {
@@ -200,7 +248,7 @@ func runHistory(c *fw.Ctx, idx int, r *fw.Rand) {
 		panic(err)
 	}
 	h := &hist{c: c, r: r, we: we, m: model.New(0, 0), setup: setupName(backend, base), naming: naming,
-		removed: map[string][]string{}, extras: map[string]*extra{}, cl: cl, clientBase: clientBase, sig: map[string]bool{},
+		removed: map[string][]string{}, extras: map[string]*extra{}, long: map[string]bool{}, longSMTP: map[string]bool{}, odd: map[string]string{}, cl: cl, clientBase: clientBase, sig: map[string]bool{},
 		hc: &http.Client{Transport: tr1, Timeout: time.Duration(c.Slow) * 60 * time.Second,
 			CheckRedirect: func(*http.Request, []*http.Request) error { return http.ErrUseLastResponse }},
 	}
